@@ -23,6 +23,17 @@ var lssTok = token.LSS
 var verifRoot = "/verif"
 var repoRoot = "/repo"
 
+// workDir is private to this process so that checks can run concurrently.
+func workDir() string {
+	d := filepath.Join(verifRoot, ".work", fmt.Sprintf("run-%d", os.Getpid()))
+	os.MkdirAll(d, 0o755)
+	return d
+}
+
+func cleanupWork() {
+	os.RemoveAll(filepath.Join(verifRoot, ".work", fmt.Sprintf("run-%d", os.Getpid())))
+}
+
 // harness directory -> package directory relative to the repository root
 var pkgDirs = map[string]string{
 	"canvas":     ".",
@@ -68,8 +79,7 @@ func loadAll(keys []string) (*Loaded, error) {
 	if err != nil {
 		return nil, err
 	}
-	work := filepath.Join(verifRoot, ".work")
-	os.MkdirAll(work, 0o755)
+	work := workDir()
 	var patterns []string
 	for _, k := range keys {
 		files := harnessFiles(k)
@@ -177,9 +187,13 @@ func main() {
 		noReplay := fs.Bool("no-replay", false, "skip native replays (debugging only)")
 		prop := os.Args[2]
 		fs.Parse(os.Args[3:])
-		os.Exit(cmdRun(prop, *tier, *only, *verbose, *workers, *solver, *noReplay))
+		rc := cmdRun(prop, *tier, *only, *verbose, *workers, *solver, *noReplay)
+		cleanupWork()
+		os.Exit(rc)
 	case "replay":
-		os.Exit(cmdReplay(os.Args[2]))
+		rc := cmdReplay(os.Args[2])
+		cleanupWork()
+		os.Exit(rc)
 	case "list":
 		ld, err := loadAll(allKeys())
 		if err != nil {
@@ -236,7 +250,7 @@ func (r *Replayer) build(key string, hs []*ssa.Function) {
 	r.ready[key] = ch
 	go func() {
 		defer close(ch)
-		work := filepath.Join(verifRoot, ".work")
+		work := workDir()
 		var sb strings.Builder
 		fmt.Fprintf(&sb, "package %s\n\nimport (\n\t\"os\"\n\t\"testing\"\n)\n\nvar vhTable = map[string]func(){\n", pkgNameOf(key))
 		for _, h := range hs {
@@ -286,7 +300,7 @@ func (r *Replayer) run(key string, jobs []replayJob) ([][]string, error) {
 	for i := range pending {
 		pending[i] = i
 	}
-	work := filepath.Join(verifRoot, ".work")
+	work := workDir()
 	for len(pending) > 0 {
 		batch := make([]replayJob, len(pending))
 		for i, j := range pending {
